@@ -9,7 +9,7 @@ for each concrete index i re-establishes it with r0' = 2 r0 + bit_i on both arms
 for all 2^256 bit patterns and every P."""
 from vf import core, smt, kernels
 from vf.core import Check
-from vf.dlog import DLogLower, ELEMENT_SUMM
+from vf.dlog import DLogLower, ELEMENT_SUMM, ladder_orientation
 from vf.dag import ensure_vars
 from vf.uf import concat_limbs
 from vf.params import *
@@ -62,8 +62,12 @@ def run(tier, seed, ck=None):
     own = ck is None
     ck = ck or Check('C01', tier, seed, level='model_checking')
     idxs = list(range(255, -1, -1))
-    jobs = [{'id': 'it%d' % k, 'harness': 'vh_multiply', 'summaries': SUMM, 'cut': dict(CUT, phis={'i': k})} for k in idxs]
-    jobs.append({'id': 'exit', 'harness': 'vh_multiply', 'summaries': SUMM, 'cut': dict(CUT, phis={'i': -1})})
+    # direction and name of the loop counter are read from the code: the induction runs over counter values 255..0 or 0..255, iteration with
+    # counter value c consumes bit c resp. 255 - c of the canonical value (most significant bit first either way)
+    ORI, _first, EXITV, CN = ladder_orientation(HARNESS, SUMM)
+    ck.extra['ladder_loop'] = 'counter %s counts %s' % (CN, '255..0' if ORI == 'down' else '0..255 (bit index 255 - counter)')
+    jobs = [{'id': 'it%d' % k, 'harness': 'vh_multiply', 'summaries': SUMM, 'cut': dict(CUT, phis={CN: k})} for k in idxs]
+    jobs.append({'id': 'exit', 'harness': 'vh_multiply', 'summaries': SUMM, 'cut': dict(CUT, phis={CN: EXITV})})
     jobs.append({'id': 'nil', 'harness': 'vh_multiply_nil', 'summaries': SUMM})
     runs = ck.absorb(core.symx_parallel(HARNESS, jobs, chunks=14))
     ck.extra.setdefault('_runs', []).extend(runs)
@@ -99,12 +103,21 @@ def run(tier, seed, ck=None):
             ck.record('C01.group-law', 'Add/Double formulas could not be encoded (%s)' % str(e)[:120], 'unknown', 'symx', 0.0, 'unsat')
             group_law_failed('group-law', 'not encodable: %s' % str(e)[:120], [])
     failures = []
+    LASTV = 0 if ORI == 'down' else 255     # counter value of the last iteration
+    rotated = [False]
 
     def step(k):
         r = R_['it%d' % k]
         tag = 'C01.iter%d' % k
         cuts = [p for p in r.paths if p['end'] == 'cut']
         rets = [p for p in r.paths if p['end'] == 'return']
+        rot = False
+        if not cuts and k == LASTV:
+            # a rotated loop (exit test in the latch): the arms of the last iteration run on through e.set(r0) and return
+            cuts = [p for p in rets if 'cut:havoc' in p['obs']]
+            rets = [p for p in rets if 'cut:havoc' not in p['obs']]
+            rot = True
+            rotated[0] = True
         if not ck.ground(tag + '.shape', 'iteration %d: two arms reach the loop header again; the only other path is the documented k = 1 shortcut' % k,
                          len(cuts) == 2 and len(rets) == 1 and len(r.paths) == 3, str([(p['end'], p.get('panic') or p.get('err')) for p in r.paths][:3])):
             failures.append(tag)
@@ -135,14 +148,25 @@ def run(tier, seed, ck=None):
         for p in cuts:
             hv0 = cells_point(low, p['obs']['cut:havoc'][r0]['cells'])
             hv1 = cells_point(low, p['obs']['cut:havoc'][r1]['cells'])
+            if rot:
+                # last iteration of a rotated loop: the returned receiver is r0 after this step
+                res = cells_point(low, p['obs']['P.x']['f'] + p['obs']['P.y']['f'] + p['obs']['P.z']['f'])
+                low.emit(p['pc'])
+                bi = k if ORI == 'down' else 255 - k
+                bit = '(ite (= ((_ extract %d %d) n%d) #b1) 1 0)' % (bi, bi, frm[0]['id'])
+                goals.append(('%s.arm%d' % (tag, p['id']), 'last step, from any state with r1 = r0 + P: the receiver is set to 2 r0 + bit_%d(value) P and returned' % bi,
+                              asserts(p['pc']) + '\n(assert (= %s (+ %s %s)))\n(assert (not (= %s (+ (* 2 %s) (* %s %s)))))' % (hv1, hv0, Pt, res, hv0, bit, Pt)))
+                ck.ground('%s.arm%d.same' % (tag, p['id']), 'Multiply returns its receiver', r.nodes[p['obs']['same']['n']].get('v') == '1')
+                continue
             nx0 = cells_point(low, p['obs']['cut:next'][r0]['cells'])
             nx1 = cells_point(low, p['obs']['cut:next'][r1]['cells'])
             low.emit(p['pc'])
-            bit = '(ite (= ((_ extract %d %d) n%d) #b1) 1 0)' % (k, k, frm[0]['id'])
-            goals.append(('%s.arm%d' % (tag, p['id']), 'from any state with r1 = r0 + P: r0\' = 2 r0 + bit_%d(value) and r1\' = r0\' + P' % k,
+            bi = k if ORI == 'down' else 255 - k
+            bit = '(ite (= ((_ extract %d %d) n%d) #b1) 1 0)' % (bi, bi, frm[0]['id'])
+            goals.append(('%s.arm%d' % (tag, p['id']), 'from any state with r1 = r0 + P: r0\' = 2 r0 + bit_%d(value) and r1\' = r0\' + P' % bi,
                           asserts(p['pc']) + '\n(assert (= %s (+ %s %s)))\n(assert (not (and (= %s (+ (* 2 %s) (* %s %s))) (= %s (+ %s %s)))))' % (hv1, hv0, Pt, nx0, hv0, bit, Pt, nx1, nx0, Pt)))
-            nxt = r.nodes[p['obs']['cut:next_phis']['i']]
-            if not ck.ground('%s.arm%d.counter' % (tag, p['id']), 'loop counter decreases by one', nxt['op'] == 'const' and signed64(int(nxt['v'])) == k - 1):
+            nxt = r.nodes[p['obs']['cut:next_phis'][CN]]
+            if not ck.ground('%s.arm%d.counter' % (tag, p['id']), 'loop counter moves by one towards the exit', nxt['op'] == 'const' and signed64(int(nxt['v'])) == (k - 1 if ORI == 'down' else k + 1)):
                 failures.append(tag)
         ans = ck.prove_batch(low.all(), goals, timeout=60)
         failures.extend(g[0] for g, a in zip(goals, ans) if a != 'unsat')
@@ -153,23 +177,28 @@ def run(tier, seed, ck=None):
         list(ex.map(step, idxs))
 
     # ---- exit and shortcut ----
-    r = R_['exit']
+    r = R_['exit'] if not rotated[0] else R_['it%d' % LASTV]
     ex_paths = [p for p in r.paths if p['end'] == 'return' and 'cut:havoc' in p['obs']]
     sc_paths = [p for p in r.paths if p['end'] == 'return' and 'cut:havoc' not in p['obs']]
-    if not ck.ground('C01.exit.shape', 'after the last iteration the loop exits (unwinding: counter -1 fails the loop test) and the function returns', len(ex_paths) == 1 and len(sc_paths) == 1 and len(r.paths) == 2):
+    if rotated[0]:
+        okx = ck.ground('C01.exit.shape', 'the loop exits in the latch of the last iteration (its two arms return; checked with that iteration) and the only other path is the shortcut', len(ex_paths) == 2 and len(sc_paths) == 1 and len(r.paths) == 3)
+    else:
+        okx = ck.ground('C01.exit.shape', 'after the last iteration the loop exits (unwinding: counter -1 fails the loop test) and the function returns', len(ex_paths) == 1 and len(sc_paths) == 1 and len(r.paths) == 2)
+    if not okx:
         failures.append('exit')
     else:
-        p = ex_paths[0]
-        low = DLogLower(r)
-        ent = p['obs']['cut:entry']
-        names = {oid: cells_point(low, v['cells']) for oid, v in ent.items()}
-        r0 = [o for o, v in ent.items() if is_identity(r, v['cells'])][0]
-        hv0 = cells_point(low, p['obs']['cut:havoc'][r0]['cells'])
-        res = cells_point(low, p['obs']['P.x']['f'] + p['obs']['P.y']['f'] + p['obs']['P.z']['f'])
-        low.emit(p['pc'])
-        ans = ck.prove_batch(low.all(), [('C01.exit.result', 'the receiver is set to r0 and returned', asserts(p['pc']) + '\n(assert (not (= %s %s)))' % (res, hv0))], timeout=30)
-        failures.extend(['exit'] if ans[0] != 'unsat' else [])
-        ck.ground('C01.exit.same', 'Multiply returns its receiver', r.nodes[p['obs']['same']['n']].get('v') == '1')
+        if not rotated[0]:
+            p = ex_paths[0]
+            low = DLogLower(r)
+            ent = p['obs']['cut:entry']
+            names = {oid: cells_point(low, v['cells']) for oid, v in ent.items()}
+            r0 = [o for o, v in ent.items() if is_identity(r, v['cells'])][0]
+            hv0 = cells_point(low, p['obs']['cut:havoc'][r0]['cells'])
+            res = cells_point(low, p['obs']['P.x']['f'] + p['obs']['P.y']['f'] + p['obs']['P.z']['f'])
+            low.emit(p['pc'])
+            ans = ck.prove_batch(low.all(), [('C01.exit.result', 'the receiver is set to r0 and returned', asserts(p['pc']) + '\n(assert (not (= %s %s)))' % (res, hv0))], timeout=30)
+            failures.extend(['exit'] if ans[0] != 'unsat' else [])
+            ck.ground('C01.exit.same', 'Multiply returns its receiver', r.nodes[p['obs']['same']['n']].get('v') == '1')
         # shortcut k = 1
         q = sc_paths[0]
         low2 = DLogLower(r)
